@@ -8,7 +8,8 @@ from pfa import extract
 from pfa.facts import Facts
 d, _ = extract.facts("dev", "/repo")
 F = Facts(d)
-out = {k: {"sig": b.j.get("sig"), "argc": b.argc} for k, b in sorted(F.bodies.items()) if b.j.get("kind") in ("fn", "assocfn") and "{" not in k}
+from pfa.facts import body_fingerprint
+out = {k: {"sig": b.j.get("sig"), "argc": b.argc, "fp": body_fingerprint(b.j)} for k, b in sorted(F.bodies.items()) if b.j.get("kind") in ("fn", "assocfn") and "{" not in k}
 p = os.path.join(os.path.dirname(os.path.dirname(os.path.abspath(__file__))), "reference", "fnnames.json")
 json.dump(out, open(p, "w"), indent=0)
 print("frozen %d function signatures" % len(out))
@@ -20,3 +21,7 @@ adtf = {a: [[f["name"], f["ty"]] for f in v["variants"][0]["fields"]] for a, v i
 p3 = os.path.join(os.path.dirname(p), "adtfields.json")
 json.dump(adtf, open(p3, "w"), indent=0)
 print("frozen fields of %d structs" % len(adtf))
+shapes = {a: [[var.get("name"), [[f["name"], f["ty"]] for f in var.get("fields", [])]] for var in v.get("variants", [])] for a, v in sorted(F.adts.items()) if a.startswith("preflate_rs::")}
+p4 = os.path.join(os.path.dirname(p), "adtshapes.json")
+json.dump(shapes, open(p4, "w"), indent=0)
+print("frozen shapes of %d types" % len(shapes))
